@@ -1,7 +1,7 @@
 #!/bin/sh
 # tools/run_all.sh [tier]: run every claimed check once; print rc and wall per check.
 TIER=${1:-quick}
-cd /verif
+cd "$(dirname "$0")/.."
 for id in $(sort tools/claimed.txt); do
   s=$(date +%s)
   ./check $id --tier $TIER > /tmp/run_all_$id.out 2>&1; rc=$?
